@@ -96,7 +96,9 @@ theorem invB_tr {cfg : Config} {s s' : State} {e : Event} (ha : InvA s) (hi : In
     · rename_i hc; simp only at hc
       exact invB_acq_plain hi ha t n .wChk2 hl (.inl ⟨hc, rfl⟩)
     · rename_i hc; simp only at hc
-      exact invB_acq_plain hi ha t n .nLocked hl (.inr ⟨hc, rfl⟩)
+      exact invB_acq_plain hi ha t n .nLocked hl (.inr (.inl ⟨hc, rfl⟩))
+    · rename_i hc; simp only at hc
+      exact invB_acq_plain hi ha t n .dWalk hl (.inr (.inr ⟨hc, rfl⟩))
     · rename_i hc; simp only at hc
       refine invB_acq_sig hi ha t n _ _ _ _ ?_ hl hc ?_ f6
       · dsimp only
@@ -114,6 +116,7 @@ theorem invB_tr {cfg : Config} {s s' : State} {e : Event} (ha : InvA s) (hi : In
   | wHeadExit t r y hy hl hr hw => subst hy; exact (invB_wHeadExit hi ha t r hl hr hw).2
   | wCmpEq t r obs hl hr ho he => exact (invB_wCmpEq hi ha t r obs hl hr ho he).2
   | relDeqW t new obs n hl hh hnew hn hsp => exact invB_relDeqW hi ha t n hl
+  | relDbg t new obs n hl hh hnew hn hsp => exact invB_relDbg hi ha t n hl
   | deqLdQueued t r obs hl hr hw hq => exact invB_deqLdQueued hi ha t r hl hr ((ha.qMem r).mp hq)
   | deqSpinExit t r hl hr hw => exact invB_deqSpinExit hi ha t r hl hr
   | wSt1 t r obs hl hm hst => exact invB_wSt1 hi ha t r hl hm hst
